@@ -429,6 +429,49 @@ def where_(ex):
     return f"{os.path.basename(tb[-1].filename)}:{tb[-1].lineno}" if tb else "?"
 
 
+@op("prop.c17dhcurves")
+def prop_c17dhcurves(da_name, db_name, ka, kb):
+    """keys of two different curves mixed in one ECDH object, by every route (loaders, set_curve after loading, plain attribute
+    assignment): the agreement must end in InvalidCurveError, never in a secret"""
+    ca, cb = domain(da_name)[5], domain(db_name)[5]
+    if ca == cb:
+        return "ok n/a"
+    ska = keys.SigningKey.from_secret_exponent(1 + pint(ka) % (int(ca.order) - 1), ca)
+    skb = keys.SigningKey.from_secret_exponent(1 + pint(kb) % (int(cb.order) - 1), cb)
+    vka, vkb = ska.verifying_key, skb.verifying_key
+
+    def r1():
+        e = ecdh.ECDH(); e.load_private_key(ska); e.set_curve(cb); e.load_received_public_key(vkb); return e
+    def r2():
+        e = ecdh.ECDH(curve=cb, public_key=vkb); e.private_key = ska; return e
+    def r3():
+        e = ecdh.ECDH(ca, ska); e.load_received_public_key(vkb); return e
+    def r4():
+        e = ecdh.ECDH(ca); e.public_key = vkb; e.load_private_key(ska); return e
+    def r5():
+        e = ecdh.ECDH(ca, ska, vka); e.set_curve(cb); return e
+    def r6():
+        e = ecdh.ECDH(ca, ska, vka); e.public_key = vkb; return e
+    def r7():
+        e = ecdh.ECDH(); e.load_received_public_key(vkb); e.load_private_key_bytes(ska.to_string()); return e
+    for name, route in (("load_private_key, set_curve(other), load peer of other", r1), ("private_key assigned directly", r2),
+                        ("peer of another curve loaded", r3), ("public_key assigned directly", r4), ("set_curve after both keys", r5),
+                        ("public_key replaced by assignment", r6), ("private key bytes of another curve's length", r7)):
+        try:
+            e = route()
+            sec = e.generate_sharedsecret_bytes()
+        except (ecdh.InvalidCurveError, errors.MalformedPointError):
+            continue
+        except Exception as ex:
+            if name.startswith("private key bytes"):
+                continue          # a wrong-length string is refused by the key loader with its own error
+            return f"FAIL {name}: {type(ex).__name__} instead of InvalidCurveError"
+        if name.startswith("private key bytes") and int(ca.order).bit_length() == int(cb.order).bit_length():
+            continue              # same byte length: the bytes are a legitimate key of the other curve
+        return f"FAIL {name}: keys of {da_name} and {db_name} in one agreement give the secret {sec.hex()[:24]}... instead of InvalidCurveError"
+    return "ok"
+
+
 @op("prop.c17invalid")
 def prop_c17invalid(d, x, y, why):
     """invalid points are rejected when loaded as public key and when used for key agreement"""
